@@ -99,3 +99,10 @@ def frame_obj(vc, asc, prefix='', cls_key=FRAME, data=None, T0=None, waterfall=N
 
 def fresh_idx(*names):
     return [Int(n) for n in names]
+
+
+def okv(out, cond):
+    """cond(out.value) if the call returned normally, else False (so that a raising call fails the obligation instead of crashing the contract)."""
+    if not out.ok or out.value is None:
+        return False
+    return cond(out.value)
